@@ -972,6 +972,11 @@ func Script(asserts []*Term, getValues []*Term, extraDefs []string) string {
 		sb.WriteString(full[condAt:])
 	}
 	sb.WriteString("(check-sat)\n")
+	for i, v := range getValues {
+		var b strings.Builder
+		v.write(&b, names)
+		fmt.Fprintf(&sb, ";IN %d %s %s\n", i, v.Sort, b.String())
+	}
 	if len(getValues) > 0 {
 		sb.WriteString("(get-value (")
 		for _, v := range getValues {
